@@ -185,6 +185,32 @@ def run(run, thorough):
             faulted.append(s)
             metas.append(meta)
             plans.append(plan)
+    # a hundred names taken, then a collision on the first random suffix: 101 refused exclusive creates (each answered EEXIST), the 102nd
+    # succeeds - a long search is still a search that ends well
+    many = []
+    for taken in (99, 100, 101):
+        tdh = '/home/u/.local/share/Trash'
+        tree = [['d', '/home/u', 0o755], ['d', '/home/u/w', 0o755], ['f', '/home/u/w/foo', 'the hundred-and-first foo'], ['d', tdh + '/files', 0o700]]
+        for i in range(100):
+            tree.append(['f', tdh + '/info/foo%s.trashinfo' % ('' if i == 0 else '_%d' % i), scen.TI % ('/old/foo%d' % i, '2001-01-01T00:00:00')])
+        rnd = {99: [12345, 777], 100: [5, 12345, 777], 101: [5, 7, 12345, 777]}[taken]
+        many.append({'tree': tree, 'mounts': [], 'cwd': '/', 'uid': 0, 'env': {'HOME': '/home/u', 'TRASH_VOLUMES': '/'},
+                     'steps': [{'cmd': 'put', 'argv': ['--', '/home/u/w/foo'], 'now': [2024, 5, 6, 7, 8, 9, 0], 'randints': rnd, 'maxlib': 3000}],
+                     'judge_meta': {'args': [{'arg': '/home/u/w/foo', 'kind': 'f', 'entry': '/home/u/w/foo', 'expect': 'trash'}], 'cwd': '/',
+                                    'lay_home_trash': tdh, 'mode': 'plain', 'mounts': []}})
+    for scn, res in zip(many, sandbox.execute_many(many)):
+        if res.get('harness_error') or not res.get('steps'):
+            run.fail('harness', 'sandbox failure', {'error': res.get('harness_error'), 'scenario': scn})
+            continue
+        o = res['steps'][0]
+        run.count('long-name-search')
+        nf = len(run.failures)
+        outs = putlib.conservation(run, scn, scn['judge_meta'], res, 'long-name-search')
+        if len(run.failures) == nf and (o['exit'] != 0 or outs != ['trashed']):
+            run.fail('oracle', 'a hundred names were taken and the first random suffix collided: trash-put met no file-system error, yet it did not '
+                     'trash the file', {'scenario': scn, 'exit': o['exit'], 'stderr': o['stderr'][-300:], 'outcomes': outs}, key='long-search-failed',
+                     section='long-name-search')
+        run.nontriv(('long-search', len(scn['steps'][0]['randints']), o['exit']))
     # the entry disappears (somebody else removes it) between the creation of its .trashinfo and the move: the move fails with ENOENT,
     # the reservation must be undone and the failure reported - not success with a .trashinfo that describes nothing
     vanish = []
